@@ -20,7 +20,7 @@ import (
 var ufSigs = map[string]string{
 	"sl.arr": "(Int) Int", "sl.off": "(Int) Int", "sl.len": "(Int) Int", "mk.slice": "(Int Int Int) Int",
 	"if.tag": "(Int) Int", "if.ref": "(Int) Int", "mk.iface": "(Int Int) Int", "clo.fn": "(Int) Int",
-	"card": "((Array Int Bool)) Int", "str.concat": "(Int Int) Int", "str.hasprefix": "(Int Int) Bool",
+	"card": "((Array Int Bool)) Int", "card.wit": "((Array Int Bool)) Int", "str.concat": "(Int Int) Int", "str.hasprefix": "(Int Int) Bool",
 	"str.ofbytes": "(Int) Int", "bytes.ofstr": "(Int) Int", "str.len": "(Int) Int",
 }
 var ufMu sync.Mutex
@@ -103,7 +103,9 @@ func (q *Query) Text(withModel bool) string {
 	}
 	if used["card"] {
 		axioms = append(axioms, "(assert (forall ((a (Array Int Bool))) (>= (card a) 0)))",
-			"(assert (forall ((a (Array Int Bool)) (k Int)) (! (=> (= (card a) 0) (not (select a k))) :pattern ((card a) (select a k)))))")
+			"(assert (forall ((a (Array Int Bool)) (k Int)) (! (=> (= (card a) 0) (not (select a k))) :pattern ((card a) (select a k)))))",
+			// a set that is not empty has a member (card.wit names one)
+			"(assert (forall ((a (Array Int Bool))) (! (or (= (card a) 0) (select a (card.wit a))) :pattern ((card a)))))")
 	}
 	if used["str.hasprefix"] {
 		axioms = append(axioms, "(assert (forall ((a Int)) (str.hasprefix a a)))")
